@@ -27,14 +27,16 @@ A case is a JSON-able dict:
   theta:  values of the floating parameters in declaration order (including ns)
   ds:     list of {'N', 'E', 'mask': None | K x E 0/1, 'cA','sA','cB','sB': K x E, 'y0','u','v': [K],
                    optional 'lg','lx': [K]}
-  A dataset whose yield row is all zero must not have selected events (its source-weighted ratio would be 0/0).
+  A dataset whose yield row is all zero may have selected events (SourceWeightedPDFRatio keeps the zero numerator,
+  `if A > 0`).
 """
 import numpy as np
 
 from harness import llh_fixtures as fx
 
-LOCAL_NAMES = ['gamma', 'ecut']
-DEFAULTS = [2.0, 1.0]
+LOCAL_NAMES = ['gamma', 'ecut', 'beta']      # 'beta' is inert: no leaf depends on it
+DEFAULTS = [2.0, 1.0, 0.0]
+NN = len(LOCAL_NAMES)
 VMIN, VMAX = 1.0, 2.0          # range of every non-ns global parameter (inside the ranges of gamma and ecut)
 
 
@@ -161,6 +163,10 @@ def make_pmm_layout(sources, layout, ns_max=1e9):
         if p['fixed']:
             par.make_fixed(float(p['value']))
         ms = [sources[k] for k, nm in enumerate(p['map']) if nm >= 0]
+        if not ms:
+            # a global parameter that no source uses (e.g. a detector nuisance parameter)
+            pmm.map_param(par, models=det, model_param_names='aux%d' % i)
+            continue
         # one local name per pmm model (only the entries of the mapped models are used)
         names = ['unused'] + [LOCAL_NAMES[nm] if nm >= 0 else 'unused' for nm in p['map']]
         pmm.map_param(par, models=ms, model_param_names=names)
@@ -248,24 +254,30 @@ def evaluate(B, theta):
     return float(val), np.array(grads, dtype=np.float64), float(g2)
 
 
-def all_stable(case, opa, margin=1e-6):
-    """every selected event of every dataset is in the stable regime at theta (computed from the case alone)"""
+def alphas(case):
+    """per dataset the list of ns_j * X_i / ns = f_j * X_i of the selected events (computed from the case alone, with the
+    `if A > 0` guard of SourceWeightedPDFRatio)"""
     loc = local_values(case)
-    ns = case['theta'][ns_fit_index(case)]
     W = np.array(case['W'], dtype=np.float64)
     a = np.array([W * yield_tables(case, j, loc)[0] for j in range(len(case['ds']))])
     f = a.sum(axis=1) / a.sum()
+    out = []
     for j, d in enumerate(case['ds']):
         rA, rB, _, _ = leaf_tables(case, j, loc)
         m = mask_of(case, j)
         sel = m.any(axis=0)
-        if not sel.any():
-            continue
-        R = ((rA * rB * m) * a[j][:, None]).sum(axis=0) / a[j].sum()
-        X = (R[sel] - 1.0) / d['N']
-        if np.any(ns * f[j] * X <= (opa - 1.0) + margin):
-            return False
-    return True
+        R = ((rA * rB * m) * a[j][:, None]).sum(axis=0)
+        if a[j].sum() > 0:
+            R = R / a[j].sum()
+        out.append(f[j] * (R[sel] - 1.0) / d['N'])
+    return out
+
+
+def all_stable(case, opa, margin=1e-6):
+    """every selected event of every dataset is in the stable regime at theta (computed from the case alone)"""
+    ns = case['theta'][ns_fit_index(case)]
+    return all(np.all(ns * x > (opa - 1.0) + margin) for x in alphas(case))
+
 
 
 # --------------------------------------------------------------------------------------------------
